@@ -20,11 +20,12 @@ App == <<97, 47>>      \* "a/" - the server strips the slash, the client sends i
 AppS == <<97>>
 Key == <<7>>
 
-VARIABLES cst, sst, c2s, s2c, toAccept, phase, sent, recv, fin, psid, bad
-vars == <<cst, sst, c2s, s2c, toAccept, phase, sent, recv, fin, psid, bad>>
+VARIABLES cst, sst, c2s, s2c, toAccept, phase, sent, recv, fin, psid, bad,
+          pings     \* which side has already sent its (one) ping request: interleaves freely with the workflow
+vars == <<cst, sst, c2s, s2c, toAccept, phase, sent, recv, fin, psid, bad, pings>>
 
 Init == /\ cst = CliInit /\ sst = SrvInit /\ c2s = <<>> /\ s2c = <<>> /\ toAccept = <<>>
-        /\ phase = "start" /\ sent = 0 /\ recv = 0 /\ fin = FALSE /\ psid = 0 /\ bad = ""
+        /\ phase = "start" /\ sent = 0 /\ recv = 0 /\ fin = FALSE /\ psid = 0 /\ bad = "" /\ pings = {}
 
 MinFresh(used) == CHOOSE n \in 1 .. 9 : n \notin used /\ \A m \in 1 .. 9 : m \notin used => n <= m
 
@@ -39,6 +40,8 @@ C2S(o) ==
       [] o.o = "OutMetadata" -> <<[m |-> "setDataFrame", msid |-> o.sid, shape |-> "ok"]>>
       [] o.o = "OutWinAck" -> <<[m |-> "winack"]>>
       [] o.o = "OutSetCS" -> <<[m |-> "setcs"]>>
+      [] o.o = "OutPing" -> <<[m |-> "pingreq", ts |-> 0]>>
+      [] o.o = "OutPingResponse" -> <<[m |-> "pingresp", ts |-> o.ts]>>
       [] OTHER -> <<>>
 S2C(o) ==
     CASE o.o = "ConnectResult" -> <<[m |-> "result", txn |-> o.txn, txnint |-> TRUE, hassid |-> FALSE, sid |-> 0]>>
@@ -48,6 +51,8 @@ S2C(o) ==
       [] o.o = "PlayStart" -> <<[m |-> "onStatus", code |-> "play_start"]>>
       [] o.o = "OutMedia" -> <<[m |-> IF o.kind = "send_audio" THEN "audio" ELSE "video", msid |-> o.sid, ts |-> o.ts]>>
       [] o.o = "OutMetadata" -> <<[m |-> "onMetaData", msid |-> o.sid, shape |-> "ok"]>>
+      [] o.o = "OutPing" -> <<[m |-> "pingreq", ts |-> 0]>>
+      [] o.o = "PingResponse" -> <<[m |-> "pingresp", ts |-> o.ts]>>
       [] OTHER -> <<>>
 
 RECURSIVE FlatC(_, _), FlatS(_, _)
@@ -101,30 +106,30 @@ Room == Len(c2s) < Cap /\ Len(s2c) < Cap
 Request == /\ phase = "connected" /\ Room
            /\ ClientDoesP(IF Scenario = "publish" THEN [m |-> "request_publishing", key |-> Key, ptype |-> "live"]
                           ELSE [m |-> "request_playback", key |-> Key], "requested")
-           /\ UNCHANGED <<sst, s2c, toAccept, sent, fin, psid>>
+           /\ UNCHANGED <<sst, s2c, toAccept, sent, fin, psid, pings>>
 SendItem == /\ phase = "active" /\ sent < N /\ Room
             /\ (Scenario = "play" => psid # 0)
             /\ sent' = sent + 1
             /\ IF Scenario = "publish"
-               THEN ClientDoes([m |-> "publish_video", ts |-> sent + 1, drop |-> FALSE]) /\ UNCHANGED <<sst, s2c, toAccept, fin, psid>>
-               ELSE ServerDoes([m |-> "send_video", sid |-> psid, ts |-> sent + 1, drop |-> FALSE]) /\ UNCHANGED <<cst, c2s, phase>>
+               THEN ClientDoes([m |-> "publish_video", ts |-> sent + 1, drop |-> FALSE]) /\ UNCHANGED <<sst, s2c, toAccept, fin, psid, pings>>
+               ELSE ServerDoes([m |-> "send_video", sid |-> psid, ts |-> sent + 1, drop |-> FALSE]) /\ UNCHANGED <<cst, c2s, phase, pings>>
 DeliverS2C == /\ s2c # <<>> /\ Len(c2s) < Cap + 2
-              /\ ClientDoes(Head(s2c)) /\ s2c' = Tail(s2c) /\ UNCHANGED <<sst, toAccept, sent, fin, psid>>
+              /\ ClientDoes(Head(s2c)) /\ s2c' = Tail(s2c) /\ UNCHANGED <<sst, toAccept, sent, fin, psid, pings>>
 AppAccept == /\ toAccept # <<>> /\ Len(s2c) < Cap + 2
              /\ ServerDoesQ([m |-> "accept", id |-> Head(toAccept)], Tail(toAccept))
-             /\ UNCHANGED <<cst, c2s, phase, sent>>
+             /\ UNCHANGED <<cst, c2s, phase, sent, pings>>
 
 ConnectA == /\ phase = "start" /\ Room
             /\ LET i1 == [m |-> "request_connection", app |-> App, fresh |-> MinFresh(cst.itxn)]
                    r == CliStep(cst, i1)
                IN /\ cst' = r.st /\ c2s' = c2s \o FlatC(r.obs, 1)
                   /\ bad' = IF r.obs = CErr THEN "client call failed: request_connection" ELSE bad
-            /\ phase' = "connecting" /\ UNCHANGED <<sst, s2c, toAccept, sent, recv, fin, psid>>
+            /\ phase' = "connecting" /\ UNCHANGED <<sst, s2c, toAccept, sent, recv, fin, psid, pings>>
 StopA == /\ phase = "active" /\ sent = N /\ recv = N /\ Room
          /\ LET r == CliStep(cst, [m |-> IF Scenario = "publish" THEN "stop_publishing" ELSE "stop_playback"])
             IN /\ cst' = r.st /\ c2s' = c2s \o FlatC(r.obs, 1)
                /\ bad' = IF r.obs = CErr THEN "client call failed: stop" ELSE bad
-         /\ phase' = "stopped" /\ UNCHANGED <<sst, s2c, toAccept, sent, recv, fin, psid>>
+         /\ phase' = "stopped" /\ UNCHANGED <<sst, s2c, toAccept, sent, recv, fin, psid, pings>>
 DeliverC2SA == /\ c2s # <<>> /\ Len(s2c) < Cap + 2
                /\ LET i == Head(c2s)
                       fr == IF i.m = "createStream" THEN MinFresh(sst.istream) ELSE MinFresh({n + 1 : n \in sst.ireq}) - 1
@@ -141,13 +146,19 @@ DeliverC2SA == /\ c2s # <<>> /\ Len(s2c) < Cap + 2
                                ELSE IF \E k \in surfaced : r.obs[k].app # AppS THEN "request surfaced under a different application name"
                                ELSE IF (HasO(r.obs, "PublishStreamFinished") \/ HasO(r.obs, "PlayStreamFinished")) /\ fin THEN "second finished event"
                                ELSE bad
-               /\ UNCHANGED <<cst, phase, sent, psid>>
+               /\ UNCHANGED <<cst, phase, sent, psid, pings>>
 
-Next == ConnectA \/ Request \/ SendItem \/ StopA \/ DeliverC2SA \/ DeliverS2C \/ AppAccept
+\* each side may send one ping request at any time; request and response travel through the same channels
+ClientPing == /\ "c" \notin pings /\ Room /\ pings' = pings \cup {"c"}
+              /\ ClientDoes([m |-> "send_ping"]) /\ UNCHANGED <<sst, s2c, toAccept, sent, fin, psid>>
+ServerPing == /\ "s" \notin pings /\ Room /\ pings' = pings \cup {"s"}
+              /\ ServerDoes([m |-> "send_ping"]) /\ UNCHANGED <<cst, c2s, phase, sent>>
+
+Next == ConnectA \/ Request \/ SendItem \/ StopA \/ DeliverC2SA \/ DeliverS2C \/ AppAccept \/ ClientPing \/ ServerPing
 Spec == Init /\ [][Next]_vars /\ WF_vars(ConnectA) /\ WF_vars(Request) /\ WF_vars(SendItem) /\ WF_vars(StopA)
-             /\ WF_vars(DeliverC2SA) /\ WF_vars(DeliverS2C) /\ WF_vars(AppAccept)
+             /\ WF_vars(DeliverC2SA) /\ WF_vars(DeliverS2C) /\ WF_vars(AppAccept) /\ WF_vars(ClientPing) /\ WF_vars(ServerPing)
 
 Safe == bad = ""
-Done == phase = "stopped" /\ fin /\ recv = N /\ c2s = <<>> /\ s2c = <<>>
+Done == phase = "stopped" /\ fin /\ recv = N /\ c2s = <<>> /\ s2c = <<>> /\ pings = {"c", "s"}
 Live == <>[]Done
 =============================================================================
